@@ -980,6 +980,10 @@ func rowsPlaced(v ssa.Value, fld *types.Var) (rows []ssa.Value, unknown bool) {
 // resultLayout: the fields of the library's result the driver's rows are made of.
 type resultLayout struct {
 	total, groups, gFields, gCount, fValue *types.Var
+	// bind: while a row-building helper is followed from one call, its parameters stand for that call's arguments
+	// (newRow(rr.Fields, rr.Count): `fields` is the field list of group rr, `count` its count)
+	bind  map[*ssa.Parameter]ssa.Value
+	depth int
 }
 
 func (l *resultLayout) complete() bool {
@@ -994,6 +998,75 @@ func resultLayoutOf(c *Ctx) *resultLayout {
 		gCount:  c.w.field(pkgRoot, "ResultGroup", "Count"),
 		fValue:  c.w.field(pkgRoot, "ResultField", "Value"),
 	}
+}
+
+// deep is deepPath continued through the parameters of the helper(s) being followed: a path that starts at a bound
+// parameter goes on in the caller, at the argument of the call.
+func (l *resultLayout) deep(v ssa.Value) (ssa.Value, []dstep) {
+	root, steps := deepPath(v)
+	for n := 0; n < 8; n++ {
+		p, isParam := root.(*ssa.Parameter)
+		if !isParam {
+			break
+		}
+		arg, bound := l.bind[p]
+		if !bound {
+			break
+		}
+		r2, s2 := deepPath(arg)
+		root, steps = r2, append(append([]dstep{}, s2...), steps...)
+	}
+	return root, steps
+}
+
+// withArgs runs f with the callee's parameters bound to the arguments of call (and restores the bindings afterwards: the
+// same helper builds the group rows and the total-count row, from different arguments).
+func (l *resultLayout) withArgs(call *ssa.Call, callee *ssa.Function, f func() string) string {
+	saved := l.bind
+	l.bind = map[*ssa.Parameter]ssa.Value{}
+	for p, a := range saved {
+		l.bind[p] = a
+	}
+	for k, p := range callee.Params {
+		if k < len(call.Call.Args) {
+			if _, rec := saved[p]; !rec { // (a recursive helper keeps the outermost binding)
+				l.bind[p] = call.Call.Args[k]
+			}
+		}
+	}
+	defer func() { l.bind = saved }()
+	return f()
+}
+
+// emptyList: v is a list that holds nothing where it is used: nil, `[]T{}` or make([]T, 0[, n]) — possibly as the
+// argument bound to a helper's parameter (newRow(nil, result.Count)).
+func (l *resultLayout) emptyList(v ssa.Value) bool {
+	root, steps := l.deep(v)
+	if len(steps) != 0 {
+		return false
+	}
+	if _, isSlice := root.Type().Underlying().(*types.Slice); !isSlice {
+		return false
+	}
+	if isNilConst(root) {
+		return true
+	}
+	if ms, ok := root.(*ssa.MakeSlice); ok {
+		k, isK := constInt(ms.Len)
+		return isK && k == 0
+	}
+	if al := sliceOfArray(root); al != nil {
+		n, _ := arrayLen(al.Type())
+		return n == 0
+	}
+	return false
+}
+
+// elemOfEmptyList: e is read from an element of a list that is empty here: the statement that uses it never runs (a
+// loop over the list has no iteration; an index expression would panic before anything is built).
+func (l *resultLayout) elemOfEmptyList(e ssa.Value) bool {
+	root, steps := l.deep(e)
+	return len(steps) > 0 && steps[0].Elem && l.emptyList(root)
 }
 
 // groupOf identifies the result group a deep path reads from: the element of result.Groups at some index (identified
@@ -1018,7 +1091,7 @@ func (l *resultLayout) countElem(e ssa.Value) (group [2]ssa.Value, isTotal, ok b
 	if b, isB := mi.X.Type().Underlying().(*types.Basic); !isB || b.Kind() != types.Int64 {
 		return group, false, false // database/sql reports the column as BIGINT / int64
 	}
-	root, steps := deepPath(mi.X)
+	root, steps := l.deep(mi.X)
 	switch dLastField(steps) {
 	case l.total:
 		return group, true, len(steps) == 1
@@ -1031,7 +1104,15 @@ func (l *resultLayout) countElem(e ssa.Value) (group [2]ssa.Value, isTotal, ok b
 
 // valueElem: e is the value of a field of group `group`; idx is the index into the group's field list.
 func (l *resultLayout) valueElem(e ssa.Value, group [2]ssa.Value) (idx ssa.Value, why string) {
-	root, steps := deepPath(e)
+	root, steps := l.deep(e)
+	if len(steps) == 1 && steps[0].Elem && isStringSlice(root.Type()) {
+		// element i of a list of strings (handed to the helper as an argument): fine if that list is the group's
+		// values, collected in the order of the group's field list
+		if w := l.valuesInOrder(root, group, false); w != "" {
+			return nil, "a column before the count comes from a list that is not the group's values in order (" + w + ")"
+		}
+		return steps[0].Index, ""
+	}
 	if dLastField(steps) != l.fValue || !dHasField(steps, l.gFields) {
 		return nil, "a column before the count is not a value of the group's field list"
 	}
@@ -1050,7 +1131,11 @@ func (l *resultLayout) isLenOfGroupFields(v ssa.Value, group [2]ssa.Value) bool 
 	if b, ok := call.Call.Value.(*ssa.Builtin); !ok || b.Name() != "len" {
 		return false
 	}
-	root, steps := deepPath(call.Call.Args[0])
+	root, steps := l.deep(call.Call.Args[0])
+	if len(steps) == 0 && isStringSlice(root.Type()) {
+		// the list of the group's values collected one per field has as many elements as the group has fields
+		return l.valuesInOrder(root, group, false) == ""
+	}
 	if dLastField(steps) != l.gFields {
 		return false
 	}
@@ -1058,55 +1143,29 @@ func (l *resultLayout) isLenOfGroupFields(v ssa.Value, group [2]ssa.Value) bool 
 	return ok && g == group
 }
 
-// sliceRowLayout decides the layout of one row value placed into the rows storage: "" if the row is the values of one
-// group in the order of the group's field list followed by that group's count (or the total count alone), else why not.
-// Recognised ways to build a row: a literal holding just the count; an empty slice to which the group's values are
-// appended one by one in a loop that runs up the group's field list, with the count appended last; a slice made with
-// len(fields)+1 elements whose element i is assigned field i and whose element len(fields) is assigned the count;
-// a helper of the module that returns such a row.
-func (l *resultLayout) sliceRowLayout(w *World, rv ssa.Value, depth int) string {
-	rv = peel(rv)
-	if _, _, vals, ok := resultOrigins(w, rv); ok && depth > 0 {
-		for _, v := range vals {
-			if isNilConst(v) {
-				continue
-			}
-			if why := l.sliceRowLayout(w, v, depth-1); why != "" {
-				return why
-			}
-		}
-		return ""
-	}
-	if al := sliceOfArray(rv); al != nil {
-		elems, n, ok := arrayElems(al)
-		if !ok || n != 1 || len(elems) != 1 {
-			return "a row literal with other than exactly one element (the count) is not recognised"
-		}
-		if _, _, ok := l.countElem(elems[0]); !ok {
-			return "the only element of a row literal is not a count of the result converted to int64"
-		}
-		return ""
-	}
-	if ms, ok := rv.(*ssa.MakeSlice); ok {
-		return l.indexedRowLayout(ms)
-	}
-	call := isAppend(rv)
-	if call == nil {
-		return "the row placed into the list is not `append(values…, count)`: the count is not the last thing appended to it"
-	}
-	last := sliceOfArray(call.Call.Args[1])
-	if last == nil {
-		return "the last append to a row is not a single element"
-	}
-	elems, n, ok := arrayElems(last)
-	if !ok || n != 1 || len(elems) != 1 {
-		return "the last append to a row adds other than exactly one element"
-	}
-	group, isTotal, ok := l.countElem(elems[0])
+// isLenOfEmpty: v is len(x) of a list that is empty here.
+func (l *resultLayout) isLenOfEmpty(v ssa.Value) bool {
+	call, ok := v.(*ssa.Call)
 	if !ok {
-		return "the last element appended to a row is not the count (converted to int64): the count is not the last column"
+		return false
 	}
-	// everything before: an empty slice, extended one value at a time by the values of the same group in order
+	if b, ok := call.Call.Value.(*ssa.Builtin); !ok || b.Name() != "len" {
+		return false
+	}
+	return l.emptyList(call.Call.Args[0])
+}
+
+// valuesInOrder walks a slice back to where it starts: "" if it starts empty and is extended only one element at a time,
+// each time by the value of a field of group `group`, going up the group's field list (group-by order); else why not.
+// The slice is a row under construction (the part before the count) or a list of strings collected for a row-building
+// helper. The row with the total count (isTotal) must not get any element this way — except in a statement that never
+// runs because the list it reads from is empty at this call (newRow(nil, result.Count): the loop over nil).
+func (l *resultLayout) valuesInOrder(start ssa.Value, group [2]ssa.Value, isTotal bool) string {
+	if l.depth > 4 {
+		return "the way a row is put together is nested too deeply to follow"
+	}
+	l.depth++
+	defer func() { l.depth-- }()
 	why := ""
 	seen := map[ssa.Value]bool{}
 	var visit func(v ssa.Value)
@@ -1118,6 +1177,12 @@ func (l *resultLayout) sliceRowLayout(w *World, rv ssa.Value, depth int) string 
 		seen[v] = true
 		if isNilConst(v) {
 			return
+		}
+		if p, ok := v.(*ssa.Parameter); ok {
+			if a, bound := l.bind[p]; bound {
+				visit(a)
+				return
+			}
 		}
 		if phi, ok := v.(*ssa.Phi); ok {
 			for _, e := range phi.Edges {
@@ -1153,7 +1218,11 @@ func (l *resultLayout) sliceRowLayout(w *World, rv ssa.Value, depth int) string 
 			return
 		}
 		if isTotal {
-			why = "the row with the total count has further columns"
+			if !l.elemOfEmptyList(es[0]) {
+				why = "the row with the total count has further columns"
+				return
+			}
+			visit(ap.Call.Args[0])
 			return
 		}
 		idx, w := l.valueElem(es[0], group)
@@ -1165,8 +1234,66 @@ func (l *resultLayout) sliceRowLayout(w *World, rv ssa.Value, depth int) string 
 		}
 		visit(ap.Call.Args[0])
 	}
-	visit(call.Call.Args[0])
+	visit(start)
 	return why
+}
+
+// sliceRowLayout decides the layout of one row value placed into the rows storage: "" if the row is the values of one
+// group in the order of the group's field list followed by that group's count (or the total count alone), else why not.
+// Recognised ways to build a row: a literal holding just the count; an empty slice to which the group's values are
+// appended one by one in a loop that runs up the group's field list, with the count appended last; a slice made with
+// len(fields)+1 elements whose element i is assigned field i and whose element len(fields) is assigned the count;
+// a helper of the module that returns such a row — from a group it is handed, or from the group's field list (or a list
+// of strings collected from the group's values in order) and the group's count handed in as separate arguments; the
+// total-count row may come out of the same helper, called with an empty list and the result's total count. The helper
+// is judged with its parameters bound to the arguments of the call that places the row.
+func (l *resultLayout) sliceRowLayout(w *World, rv ssa.Value, depth int) string {
+	rv = peel(rv)
+	if call, callee, vals, ok := resultOrigins(w, rv); ok && depth > 0 {
+		// the helper is judged for this call: what it reads from its parameters is what the call hands in
+		return l.withArgs(call, callee, func() string {
+			for _, v := range vals {
+				if isNilConst(v) {
+					continue
+				}
+				if why := l.sliceRowLayout(w, v, depth-1); why != "" {
+					return why
+				}
+			}
+			return ""
+		})
+	}
+	if al := sliceOfArray(rv); al != nil {
+		elems, n, ok := arrayElems(al)
+		if !ok || n != 1 || len(elems) != 1 {
+			return "a row literal with other than exactly one element (the count) is not recognised"
+		}
+		if _, _, ok := l.countElem(elems[0]); !ok {
+			return "the only element of a row literal is not a count of the result converted to int64"
+		}
+		return ""
+	}
+	if ms, ok := rv.(*ssa.MakeSlice); ok {
+		return l.indexedRowLayout(ms)
+	}
+	call := isAppend(rv)
+	if call == nil {
+		return "the row placed into the list is not `append(values…, count)`: the count is not the last thing appended to it"
+	}
+	last := sliceOfArray(call.Call.Args[1])
+	if last == nil {
+		return "the last append to a row is not a single element"
+	}
+	elems, n, ok := arrayElems(last)
+	if !ok || n != 1 || len(elems) != 1 {
+		return "the last append to a row adds other than exactly one element"
+	}
+	group, isTotal, ok := l.countElem(elems[0])
+	if !ok {
+		return "the last element appended to a row is not the count (converted to int64): the count is not the last column"
+	}
+	// everything before: an empty slice, extended one value at a time by the values of the same group in order
+	return l.valuesInOrder(call.Call.Args[0], group, isTotal)
 }
 
 // indexedRowLayout: a row made with make([]driver.Value, len(fields)+1) and filled by index: field i at index i, the
@@ -1214,10 +1341,25 @@ func (l *resultLayout) indexedRowLayout(ms *ssa.MakeSlice) string {
 	}
 	lb, lo := lin(ms.Len)
 	if isTotal {
-		if k, isK := constInt(ms.Len); !isK || k != 1 || len(asgs) != 1 {
+		// one element: make(…, 1), or make(…, len(fields)+1) in a helper whose field list is empty at this call
+		// (newRow(nil, result.Count)); assignments of elements of that empty list never run
+		if k, isK := constInt(ms.Len); !(isK && k == 1) && !(lo == 1 && l.isLenOfEmpty(lb)) {
 			return "the row with the total count has further columns"
 		}
-		if k, isK := constInt(countIdx); !isK || k != 0 {
+		for _, a := range asgs {
+			if _, _, ok := l.countElem(a.val); !ok && !l.elemOfEmptyList(a.val) {
+				return "the row with the total count has further columns"
+			}
+		}
+		cb, co := lin(countIdx)
+		k, isK := constInt(countIdx)
+		okAt := (isK && k == 0) || (co == 0 && l.isLenOfEmpty(cb))
+		if call, ok := cb.(*ssa.Call); ok && co == -1 {
+			if b, ok := call.Call.Value.(*ssa.Builtin); ok && b.Name() == "len" && call.Call.Args[0] == ssa.Value(ms) {
+				okAt = true
+			}
+		}
+		if !okAt {
 			return "the total count is not stored at index 0 of its row"
 		}
 		return ""
